@@ -65,8 +65,14 @@ class Probes:
         orig_i = NonparametricElectionModel.get_unit_prediction_intervals
 
         def bounds(self_, reporting_units, nonreporting_units, conf_frac, alpha, estimand):
+            pr._fit_rows = []
             r = orig_b(self_, reporting_units, nonreporting_units, conf_frac, alpha, estimand)
             if pr._cur is not None:
+                pr._cur["fit_rows"] = list(pr._fit_rows)
+                pr._cur["n_rep_bounds"] = int(reporting_units.shape[0])
+                if "geographic_unit_fips" in r.conformalization.columns:
+                    pr._cur["cal_ids"] = r.conformalization["geographic_unit_fips"].tolist()
+                pr._cur["fit_y"] = list(getattr(pr, "_fit_y", []))
                 pr._cur["lo_raw"] = np.array(r.lower, dtype=float).copy()
                 pr._cur["hi_raw"] = np.array(r.upper, dtype=float).copy()
                 cal = r.conformalization
@@ -91,6 +97,14 @@ class Probes:
             pr.calls.append(cur)
             return r
 
+        from elexsolver.QuantileRegressionSolver import QuantileRegressionSolver
+
+        def before_fit(args, kwargs):
+            if pr._cur is not None and hasattr(pr, "_fit_rows"):
+                pr._fit_rows.append(int(np.asarray(args[1]).shape[0]))
+                pr._fit_y = np.asarray(args[2], dtype=float).ravel().tolist()
+
+        p.wrap(QuantileRegressionSolver, "fit", before=before_fit)
         p.set(ConformalElectionModel, "get_unit_prediction_interval_bounds", bounds)
         p.set(NonparametricElectionModel, "get_unit_prediction_intervals", intervals)
         # local-variable probe on the ORIGINAL code object
@@ -164,6 +178,17 @@ def judge_call(rec, out):
     if "cal_lower" not in rec:
         out["inconclusive"] = "bounds wrapper not reached"
         return None
+    # the calibration units must be HELD OUT: the rows the two bound regressions were fit on and the calibration rows
+    # partition the reporting units
+    if rec.get("fit_rows") and "n_rep_bounds" in rec:
+        n_cal_ = len(rec["cal_w"])
+        out["counters"]["split_partitions_checked"] = out["counters"].get("split_partitions_checked", 0) + 1
+        if any(fr + n_cal_ != rec["n_rep_bounds"] for fr in rec["fit_rows"]):
+            out["violations"].append(dict(
+                key="C04/calibration-units-not-held-out",
+                msg=f"{where}: {rec['n_rep_bounds']} reporting units, bound regressions fit on {rec['fit_rows']} rows "
+                    f"but {n_cal_} calibration units (training and calibration rows overlap or leave units out)",
+                witness=dict(n_reporting=rec["n_rep_bounds"], fit_rows=rec["fit_rows"], n_cal=n_cal_)))
     cands, s, w, info = reference_corrections(rec)
     if not cands:
         out["violations"].append(dict(key="C04/no-score-exceeds-quantile", msg=f"{where}: no calibration score has a "
@@ -305,6 +330,17 @@ def run_det(spec, inputs=None):
             o.update(el_equal_baseline=True)
         el, feed, status, call = cases_mod.build(spec["seed"], PROPERTY, spec["i"], o)
         call["model_parameters"]["robust"] = bool(spec["i"] % 2)
+        if spec["i"] % 7 == 3:
+            # exactly the minimum number of reporting units (or one / two more) for the largest requested level: the
+            # split has a single training unit there
+            from . import c14
+
+            alphas = [a for a in call["prediction_intervals"] if a <= 0.96] or [0.7]
+            nmin = int(np.ceil(c14.minimum_for("nonparametric", alphas)))
+            el, feed, call2, _ = c14.clean_case(dict(seed=spec["seed"], i=spec["i"]), "nonparametric",
+                                                nmin + int(spec["i"] % 3), alphas, salt=spec["i"] % 3)
+            call2["model_parameters"]["robust"] = bool(spec["i"] % 2)
+            call, status = call2, {}
     out = dict(violations=[], counters={}, sets={}, sigs=[])
     pr = Probes()
     with harness.patched() as p:
